@@ -196,6 +196,14 @@ def run(chk):
     ]
     big = tier != 'quick'
     N = 700 if not big else 8000
+    from peptacular import util as pt_util
+    cov = E.LineCoverage([pp.parse_static_mods, pp._parse_modifications, pp._parse_modification, pp._parse_integer,
+                          pp.parse_isotope_mods, pp.ProFormaAnnotation.condense_static_mods, pp.ProFormaAnnotation.split,
+                          pp.ProFormaAnnotation.count_residues, sequence_funcs.count_residues, sequence_funcs.condense_static_mods,
+                          pt_util.convert_type, mass_calc.mass, mass_calc.comp_mass, mass_calc._pop_delta_mass_mods,
+                          chem_calc._sequence_comp, chem_calc.apply_isotope_mods_to_composition,
+                          pp._serialize_annotation_start, pp._serialize_annotation_middle, pp._serialize_annotation_end])
+    cov.start()
 
     # ------------------------------------------------------------------ cases
     cases = []
@@ -379,8 +387,12 @@ def run(chk):
             fixed.append({'a': annot.dump(pp.ProFormaAnnotation(_sequence=s)), 'rules': [], 'labels': labs})
     chk.oracle('label_shift', fixed, o_label, key_fn=lambda c: c['a'] + '+'.join(c['labels']))
 
+    cov.stop()
+    rep = cov.report()
+    chk.notes.append('line reach of the modelled Python functions during this run (sys.monitoring): ' + json.dumps(rep))
     if os.environ.get('VERIF_DEBUG'):
-        json.dump({'failures': chk.failures, 'disagreements': chk.disagreements}, open(os.environ['VERIF_DEBUG'], 'w'), indent=1, default=str)
+        json.dump({'failures': chk.failures, 'disagreements': chk.disagreements, 'coverage': rep},
+                  open(os.environ['VERIF_DEBUG'], 'w'), indent=1, default=str)
     if big:
         chk.leanchecker(['PeptVerif.Props.C12', 'PeptVerif.Model.StaticMods', 'PeptVerif.Model.AbsMass'])
     return chk.finish(classify)
